@@ -323,7 +323,7 @@ func (v *FV) frameCheck(fr *Frame, st *State, con *Contract, vars map[string]TV,
 	sort.Strings(names)
 	k := v.declare("frame_k", "Int")
 	for _, a := range names {
-		if strings.HasPrefix(a, "RV_") || strings.HasSuffix(a, "$n") || a == "TOP" || a == "CALLS" || a == "ARGNN" || a == "ARGV" {
+		if strings.HasPrefix(a, "RV_") || strings.HasSuffix(a, "$n") || a == "TOP" || a == "CALLS" || a == "ARGNN" || a == "ARGV" || a == "LOCKED" {
 			continue // ghost iteration state of range loops; arrays of objects allocated here
 		}
 		// locals allocated by the function itself are > N0 and invisible to the caller
@@ -348,7 +348,11 @@ func (v *FV) frameCheck(fr *Frame, st *State, con *Contract, vars map[string]TV,
 		if whole {
 			continue
 		}
-		hyp := fmt.Sprintf("(and (<= %s %s) %s)", k, v.n0, strings.Join(excl, " "))
+		// sub-objects (negative references) belong to their root object: those of objects allocated
+		// by this function are as invisible to the caller as the objects themselves
+		v.pre("ref_root", "(declare-fun ref_root (Int) Int)")
+		v.pre("ref_root_ax", "(assert (forall ((r Int)) (! (=> (>= r 0) (= (ref_root r) r)) :pattern ((ref_root r)))))")
+		hyp := fmt.Sprintf("(and (<= %s %s) (<= (ref_root %s) %s) %s)", k, v.n0, k, v.n0, strings.Join(excl, " "))
 		if v.regions {
 			hyp = fmt.Sprintf("(and (not %s) %s)", v.isNew(k), strings.Join(excl, " "))
 		}
